@@ -2,26 +2,36 @@ package drivers
 
 import (
 	"fmt"
+	"math/big"
+	"os"
 
 	"github.com/gr33nbl00d/caddy-revocation-validator/config"
+
+	"verif/h/rt/vsched"
+	"verif/h/world"
 )
 
 func init() { registry["DBG"] = runDbg }
 
 func runDbg(tier string, args []string) int {
-	c := newC10Cast()
-	cfg := c10Cfg{CDP: 0, Background: false, Sig: config.SignatureValidationModeVerify, Disk: true, Strict: true}
-	ev := c10EventNames(cfg)
-	idx := func(n string) int {
-		for i, e := range ev {
-			if e == n {
-				return i
+	p := world.Std()
+	n := 1 << 19
+	doc := c17Doc(n, false)
+	seqWorld(func() {
+		w := NewCW(CWOpt{Disk: true, SigMode: config.SignatureValidationModeVerify})
+		defer os.RemoveAll(w.Dir)
+		w.Net.Routes[urlA] = &world.Behaviour{Label: "big", Body: doc}
+		w.Provision()
+		vsched.Drain()
+		hf := &hookFactory{inner: w.Repo().Factory}
+		hf.hook = func(k int) {
+			if k%(n/16) == 0 || k == 1 {
+				fmt.Printf("k=%d live=%.1f MiB\n", k, float64(liveHeap())/mib)
 			}
 		}
-		panic(n)
-	}
-	h := []int{idx("set(http://crl.test/a.crl,badsig)"), idx("hs(listed)"), idx("restart"), idx("hs(clean)")}
-	r := c.run(cfg, h)
-	fmt.Println(r.key, r.viols, r.trace)
+		w.Repo().Factory = hf
+		first := world.Leaf(p.CA, new(big.Int).Lsh(big.NewInt(1), 70), []string{urlA}, nil)
+		fmt.Println(w.Lookup(first, world.Chain(first, p.CA, p.Root)))
+	})
 	return 0
 }
